@@ -190,10 +190,11 @@ type Origins struct {
 	outer  *Origins            // for closures: context of the enclosing function
 	mc     *ssa.MakeClosure
 
-	memo    map[ssa.Value]*Ex
-	busy    map[ssa.Value]bool
-	derived map[ssa.Value]map[ssa.Value]bool // root -> set of values derived from its address
-	depth   int
+	memo       map[ssa.Value]*Ex
+	busy       map[ssa.Value]bool
+	derived    map[ssa.Value]map[ssa.Value]bool // root -> set of values derived from its address
+	derivedEsc map[escKey]map[ssa.Value]bool
+	depth      int
 }
 
 // OriginsOf returns the top-level provenance context of fn.
@@ -852,7 +853,7 @@ type reachPos struct {
 
 // reaching performs a backward search for the stores that may define root.path at (blk, idx).
 func (o *Origins) reaching(root ssa.Value, path []pathElem, at ssa.Instruction, blk *ssa.BasicBlock, idx int) *Ex {
-	der := o.derivedSet(root)
+	der := o.escapeSet(root)
 	type override struct {
 		path []pathElem
 		val  *Ex
@@ -1260,3 +1261,43 @@ func (o *Origins) ContentAt(ptr ssa.Value, at ssa.Instruction) *Ex {
 	}
 	return o.pointee(ptr)
 }
+
+// escapeSet is derivedSet(root) plus everything derived from local containers into which an address
+// of root was stored (argument lists built by the compiler for variadic calls such as Scan(&a, &b)):
+// a call that receives the container may write root.
+func (o *Origins) escapeSet(root ssa.Value) map[ssa.Value]bool {
+	key := escKey{root}
+	if s, ok := o.derivedEsc[key]; ok {
+		return s
+	}
+	if o.derivedEsc == nil {
+		o.derivedEsc = map[escKey]map[ssa.Value]bool{}
+	}
+	base := o.derivedSet(root)
+	out := map[ssa.Value]bool{}
+	for v := range base {
+		out[v] = true
+	}
+	for v := range base {
+		refs := v.Referrers()
+		if refs == nil {
+			continue
+		}
+		for _, r := range *refs {
+			st, ok := r.(*ssa.Store)
+			if !ok || st.Val != v {
+				continue
+			}
+			c, _ := addrRoot(st.Addr)
+			if al, ok := c.(*ssa.Alloc); ok && ssa.Value(al) != root {
+				for w := range o.derivedSet(al) {
+					out[w] = true
+				}
+			}
+		}
+	}
+	o.derivedEsc[key] = out
+	return out
+}
+
+type escKey struct{ v ssa.Value }
